@@ -882,3 +882,69 @@ twin('C08', 'pack-rename-oldpath', FSPY, 'FileStorage.pack',
                     try:
                         os.rename(self._file_name, previous)
                     except Exception:''')
+
+# ---------------------------------------------------------------- C11
+SERPY = 'ZODB/serialize.py'
+breaker('C11', 'add-register-unprotected', 'C11.R1', CONNPY, 'Connection._add',
+        '''        try:
+            self._register(obj)
+        except:  # noqa: E722 do not use bare 'except'
+            # We could not join the transaction: the object is not ours.
+            del obj._p_jar
+            del obj._p_oid
+            raise''', '''        self._register(obj)''')
+breaker('C11', 'store-objects-no-drain', 'C11.R1', CONNPY,
+        'Connection._store_objects',
+        '''            for obj in writer:
+                del obj._p_jar
+                del obj._p_oid
+            raise''', '''            raise''')
+breaker('C11', 'creating-not-cached-early', 'C11.R1', CONNPY,
+        'Connection._store_objects_of',
+        '''                try:
+                    self._cache[oid] = obj
+                except:  # noqa: E722 do not use bare 'except'
+                    pass  # wrapped object: handled after the store, below
+''', '')
+breaker('C11', 'abort-skips-cleanup', 'C11.R2', CONNPY, 'Connection.abort',
+        '''        self._invalidate_creating()
+        self._tpc_cleanup()''', '''        self._invalidate_creating()''')
+breaker('C11', 'cleanup-keeps-registered', 'C11.R2', CONNPY,
+        'Connection._tpc_cleanup',
+        '''        self._registered_objects = []
+''', '')
+breaker('C11', 'finish-serial-z64', 'C11.R3', CONNPY, 'Connection.tpc_finish',
+        'obj._p_serial = serial', 'obj._p_serial = z64')
+breaker('C11', 'finish-skips-creating', 'C11.R3', CONNPY, 'Connection.tpc_finish',
+        'for oid_iterator in self._modified, self._creating:',
+        'for oid_iterator in (self._modified,):')
+breaker('C11', 'tpc-abort-no-invalidate-creating', 'C11.R4', CONNPY,
+        'Connection.tpc_abort',
+        '''        self._invalidate_creating()
+        while self._added:''', '''        while self._added:''')
+breaker('C11', 'disown-only-jar', 'C11.R4', CONNPY,
+        'Connection._invalidate_creating',
+        '''                del o._p_jar
+                del o._p_oid''', '''                del o._p_jar''')
+breaker('C11', 'close-while-joined', 'C11.R5', CONNPY, 'Connection.close',
+        '''        if not self._needs_to_join:
+            # We're currently joined to a transaction.
+            raise ConnectionStateError("Cannot close a connection joined to "
+                                       "a transaction")
+''', '')
+breaker('C11', 'persistent-id-no-queue', 'C11.R6', SERPY,
+        'ObjectWriter.persistent_id',
+        '''            oid = obj._p_oid = self._jar.new_oid()
+            obj._p_jar = self._jar
+            self._stack.append(obj)''',
+        '''            oid = obj._p_oid = self._jar.new_oid()
+            obj._p_jar = self._jar''')
+twin('C11', 'disown-order-swapped', CONNPY, 'Connection._invalidate_creating',
+     '''                del o._p_jar
+                del o._p_oid''', '''                del o._p_oid
+                del o._p_jar''')
+twin('C11', 'abort-drain-helper', CONNPY, 'Connection.tpc_abort',
+     '''        self._cache.invalidate(self._modified)
+        self._invalidate_creating()''', '''        modified = self._modified
+        self._cache.invalidate(self._modified)
+        self._invalidate_creating()''')
